@@ -14,7 +14,7 @@ from __future__ import annotations
 import logging
 import warnings
 
-from .core import import_rdflib
+from .core import CaseTimeout, import_rdflib
 
 rdflib = import_rdflib()
 warnings.filterwarnings("ignore")
@@ -31,7 +31,7 @@ FORMATS = ["nt", "turtle", "longturtle", "n3", "xml", "pretty-xml", "json-ld", "
 PARSER_OF = {"longturtle": "turtle", "pretty-xml": "xml"}
 
 # the characters the text-level proofs split on
-ALPHABET = ["\\", '"', "'", "\n", "\r", "\t", "u", "U", "0", "a", "é", "\U0001F600", " ", " "]
+ALPHABET = ["\\", '"', "'", "\n", "\r", "\t", "u", "U", "0", "a", "\u00e9", "\U0001F600", "\u00a0", "\u2028"]
 
 
 def to_term(t):
@@ -162,11 +162,16 @@ def roundtrip(graph, fmt, base=None, bind=None, extra=None):
         kw["base"] = base
     try:
         data = g.serialize(format=fmt, **kw)
+    except CaseTimeout:
+        raise
     except Exception as e:  # noqa: BLE001
         return "ser-exc", f"{type(e).__name__}: {e}"[:300]
     try:
         g2 = Graph()
-        g2.parse(data=data, format=PARSER_OF.get(fmt, fmt))
+        # the document is read back the way it was written: same base (Turtle and RDF/XML also carry it inside)
+        g2.parse(data=data, format=PARSER_OF.get(fmt, fmt), **({} if base is None else {"publicID": base}))
+    except CaseTimeout:
+        raise
     except Exception as e:  # noqa: BLE001
         return "parse-exc", f"{type(e).__name__}: {e}"[:300] + " | " + repr(data)[:400]
     A = keys_of_abstract(graph, hext)
@@ -175,3 +180,397 @@ def roundtrip(graph, fmt, base=None, bind=None, extra=None):
         return "ok", ""
     return "differs", "missing " + repr(sorted(A - B, key=repr)[:3]) + " extra " + repr(sorted(B - A, key=repr)[:3]) \
         + " | " + repr(data)[:600]
+
+
+# ---------------------------------------------------------------- graph generator
+def I(x):  # noqa: E743
+    return ["I", x]
+
+
+def Bn(x):
+    return ["B", x]
+
+
+def L(lex, lang=None, dt=None):
+    return ["L", lex, lang, dt]
+
+
+COMMON_IRIS = ["http://e/a", "http://e/b", "http://e/ns#x", "urn:x:y", "http://e/c"]
+EXOTIC_IRIS = [
+    "http://e/", "http://e/ns#", "http://e/1", "http://e/a.b", "http://e/a.", "http://e/a-b", "http://e/-a",
+    "http://e/a%20b", "http://e/a,b", "http://e/(x)", "http://e/a'b", "http://e/a:b", "http://e/a/b/",
+    "http://e/é", "http://e/~x", "mailto:x@y", "http://e/_a", "http://e/a;b", "http://e/a?b=c&d",
+    "http://e/ns#a#b", "http://e/a$b", "http://e/a*b", "http://e/a!b", "http://e/a@b", "http://e/a+b",
+    "http://e/a=b", "http://other.org/x", "file:///x/y", "http://e/\U0001F600", "http://e/a\u00a0b",
+    "http://e/a\u2028b", "http://e/ns#", "http://e/a&b", "http://e", "http://e/a/../b",
+    "http://e/ns#1x", "http://e/a·b", "http://e/x/a", "http://e/x#a", "a:b", "http://e/%C3%A9",
+    RDFNS + "List", RDFNS + "nil", RDFNS + "_1", XSD + "integer",
+]
+# predicates: (iri, expressible as an XML element name)
+COMMON_PREDS = ["http://e/p", "http://e/q", "http://e/ns#r", TYPE]
+EXOTIC_PREDS = [("http://e/p.q", True), ("http://e/p-q", True), ("urn:x:p", True), ("http://e/é", True),
+                ("http://e/_p", True), ("http://e/1p", True), ("http://e/ns#p1", True), ("http://other.org/p", True),
+                ("http://e/p.", True), (RDFNS + "_1", True), (RDFNS + "value", True), ("http://e/x/p", True),
+                ("http://e/", False), ("http://e/1", False), ("http://e/p/", False), ("http://e/ns#", False),
+                ("http://e/p%20", False)]
+XML_UNSPLITTABLE = {p for p, ok in EXOTIC_PREDS if not ok}
+
+LANGS = ["en", "en-US", "fr", "x-a1-b", "EN"]
+TYPED = {
+    XSD + "integer": ["0", "1", "-5", "12345678901234567890", "007", "+3", " 1", "abc", ""],
+    XSD + "decimal": ["1.5", "0.0", "1.0", "-0.5", "1", "1.50", ".5", "100000000000000000000.5", "1e2", "0.1234567890123456789"],
+    XSD + "double": ["1.0", "0.1", "1.5e+30", "-2.5", "1e0", "1E+30", "0.123456789", "123456789.0", "INF", "-INF", "NaN",
+                     "1.7976931348623157e+308", "5e-324", "-0.0", "abc", "100000.0", "1.234567", "12345678.0"],
+    XSD + "float": ["1.0", "0.1", "1.5", "0.123456789", "INF"],
+    XSD + "boolean": ["true", "false", "1", "0", "TRUE"],
+    XSD + "date": ["2020-01-01", "2020-01-01Z", "2020-1-1"],
+    XSD + "dateTime": ["2020-01-01T00:00:00", "2020-01-01T00:00:00Z", "2020-01-01T00:00:00+01:00", "2020-01-01T00:00:00.500000"],
+    XSD + "gYear": ["2020", "-0001"],
+    XSD + "duration": ["P1D", "PT1H30M"],
+    XSD + "anyURI": ["http://e/a", "a b"],
+    XSD + "hexBinary": ["0FB7", "0fb7"],
+    XSD + "base64Binary": ["AAEC", "AA EC"],
+    XSD + "long": ["1", "01"],
+    XSD + "nonNegativeInteger": ["1", "-1"],
+    RDFNS + "XMLLiteral": ["<a>x</a>", "x", "<b/>", "a<b", "<a xmlns=\"http://e/\">x</a>", ""],
+    RDFNS + "HTML": ["<p>x</p>", "x", "<p>x"],
+    RDFNS + "JSON": ['{"a": 1}', "[1,2]", '"s"', "{"],
+    RDFNS + "langString": ["x"],
+    "http://e/dt": None, XSD + "string": None, XSD + "normalizedString": None, XSD + "token": None,
+}
+COMMON_DTS = [XSD + "integer", XSD + "decimal", XSD + "double", XSD + "boolean", XSD + "string", "http://e/dt"]
+
+
+_CANON = {}
+
+
+def is_canonical(lex, dt):
+    """does Literal(lex, datatype=dt) (normalising constructor, what every parser calls) keep the lexical form?"""
+    k = (lex, dt)
+    if k not in _CANON:
+        try:
+            _CANON[k] = str.__str__(Literal(lex, datatype=URIRef(dt))) == lex
+        except Exception:  # noqa: BLE001
+            _CANON[k] = False
+    return _CANON[k]
+
+
+def gen_string(rng):
+    r = rng.random()
+    if r < 0.25:
+        return rng.choice(["x", "hello world", "", "a", "0"])
+    n = rng.choice([1, 1, 2, 2, 3, 3, 4, 6])
+    return "".join(rng.choice(ALPHABET) for _ in range(n))
+
+
+def gen_literal(rng):
+    r = rng.random()
+    if r < 0.30:
+        return L(gen_string(rng))
+    if r < 0.42:
+        return L(gen_string(rng), lang=rng.choice(LANGS))
+    dt = rng.choice(COMMON_DTS) if rng.random() < 0.6 else rng.choice(sorted(TYPED))
+    pool = TYPED[dt]
+    if pool is None:
+        return L(gen_string(rng), dt=dt)
+    # mostly lexical forms that rdflib's own Literal constructor leaves alone
+    canon = [x for x in pool if is_canonical(x, dt)]
+    if canon and rng.random() < 0.85:
+        return L(rng.choice(canon), dt=dt)
+    return L(rng.choice(pool), dt=dt)
+
+
+def gen_list(rng, out, members, head=None, fresh=None):
+    """well-formed rdf:List; returns its head term"""
+    if not members:
+        return I(NIL)
+    cells = [fresh() for _ in members]
+    if head is not None:
+        cells[0] = head
+    for i, m in enumerate(members):
+        out.append([cells[i], I(FIRST), m])
+        out.append([cells[i], I(REST), cells[i + 1] if i + 1 < len(cells) else I(NIL)])
+    return cells[0]
+
+
+def gen_graph(rng):
+    """-> (triples, tags) ; tags name the shapes used (for the distribution report)"""
+    out, tags = [], []
+    counter = [0]
+
+    def fresh():
+        counter[0] += 1
+        return Bn("b%d" % counter[0])
+
+    exotic = rng.random() < 0.35
+    iris = list(COMMON_IRIS)
+    preds = [I(p) for p in COMMON_PREDS]
+    if exotic:
+        iris += rng.sample(EXOTIC_IRIS, rng.choice([1, 2, 3]))
+        if rng.random() < 0.5:
+            preds.append(I(rng.choice(EXOTIC_PREDS)[0]))
+            tags.append("exotic_pred")
+        tags.append("exotic_iri")
+
+    def iri():
+        return I(rng.choice(iris[-3:] if exotic and rng.random() < 0.5 else iris))
+
+    def pred():
+        return rng.choice(preds[-2:] if rng.random() < 0.3 else preds)
+
+    def fixtype(t):
+        # rdf:type with a non-IRI object is legal but rare
+        if t[1][1] == TYPE and t[2] is not None and t[2][0] != "I" and rng.random() < 0.9:
+            return [t[0], preds[0], t[2]]
+        return t
+
+    def obj(depth=0):
+        r = rng.random()
+        if r < 0.45:
+            return gen_literal(rng)
+        if r < 0.75 or depth > 1:
+            return iri()
+        return None  # caller makes a blank node
+
+    def subj():
+        return iri()
+
+    nshapes = rng.choice([1, 1, 2, 2, 3, 4])
+    bnodes = []
+    for _ in range(nshapes):
+        shape = rng.choice(["flat", "flat", "tree", "dag", "cycle", "selfloop", "list", "list", "badlist", "orphan",
+                            "listsubj", "nestedlist", "bnodesubj", "type"])
+        tags.append(shape)
+        if shape == "flat":
+            s = subj()
+            for _ in range(rng.choice([1, 2, 3])):
+                o = obj(2)
+                out.append([s, pred(), o])
+        elif shape == "type":
+            out.append([rng.choice(bnodes) if bnodes and rng.random() < 0.3 else subj(), I(TYPE), iri()])
+        elif shape == "tree":
+            def tree(s, d):
+                for _ in range(rng.choice([1, 2])):
+                    o = obj(d)
+                    if o is None:
+                        o = fresh()
+                        bnodes.append(o)
+                        out.append([s, pred(), o])
+                        if rng.random() < 0.8:   # else: an empty [] object
+                            tree(o, d + 1)
+                    else:
+                        out.append([s, pred(), o])
+            root = subj() if rng.random() < 0.8 else fresh()
+            b = fresh()
+            bnodes.append(b)
+            out.append([root, pred(), b])
+            tree(b, 1)
+        elif shape == "dag":
+            b = fresh()
+            bnodes.append(b)
+            out.append([b, pred(), obj(2) or iri()])
+            for _ in range(2):
+                out.append([subj() if rng.random() < 0.7 else rng.choice(bnodes), pred(), b])
+        elif shape == "cycle":
+            n = rng.choice([2, 2, 3])
+            cyc = [fresh() for _ in range(n)]
+            bnodes.extend(cyc)
+            p = pred()
+            for i in range(n):
+                out.append([cyc[i], p if rng.random() < 0.7 else pred(), cyc[(i + 1) % n]])
+            if rng.random() < 0.4:
+                out.append([subj(), pred(), cyc[0]])   # otherwise: no IRI entry point
+            if rng.random() < 0.4:
+                out.append([cyc[-1], pred(), gen_literal(rng)])
+        elif shape == "selfloop":
+            b = fresh()
+            bnodes.append(b)
+            out.append([b, pred(), b])
+            if rng.random() < 0.5:
+                out.append([subj(), pred(), b])
+        elif shape == "orphan":
+            b = fresh()
+            bnodes.append(b)
+            out.append([b, pred(), obj(2) or iri()])
+        elif shape == "bnodesubj":
+            b = rng.choice(bnodes) if bnodes else fresh()
+            out.append([b, pred(), obj(2) or iri()])
+        elif shape in ("list", "listsubj", "nestedlist"):
+            members = [obj(2) or iri() for _ in range(rng.choice([0, 1, 2, 3]))]
+            if shape == "nestedlist":
+                inner = gen_list(rng, out, [obj(2) or iri() for _ in range(rng.choice([0, 1, 2]))], fresh=fresh)
+                members.insert(rng.randrange(len(members) + 1), inner)
+            if rng.random() < 0.15 and members:
+                members[rng.randrange(len(members))] = fresh()   # blank node member without properties
+            h = gen_list(rng, out, members, fresh=fresh)
+            if shape == "listsubj":
+                if rng.random() < 0.7:
+                    out.append([h, pred(), obj(2) or iri()])
+                # else the list is referenced by nobody
+            else:
+                out.append([subj() if rng.random() < 0.8 or not bnodes else rng.choice(bnodes), pred(), h])
+                if rng.random() < 0.15:
+                    out.append([subj(), pred(), h])   # list shared by two subjects
+        elif shape == "badlist":
+            kind = rng.choice(["cyclic", "cyclic1", "sharedtail", "norest", "nofirst", "twofirst", "tworest", "restiri",
+                               "extra", "irihead", "midref", "nilprops", "typed", "restlit"])
+            tags.append("badlist_" + kind)
+            a, b, c = fresh(), fresh(), fresh()
+            m = [obj(2) or iri() for _ in range(3)]
+            ref = [subj(), pred(), a]
+            if kind == "cyclic":
+                out += [[a, I(FIRST), m[0]], [a, I(REST), b], [b, I(FIRST), m[1]], [b, I(REST), a]]
+                if rng.random() < 0.5:
+                    ref = None
+            elif kind == "cyclic1":
+                out += [[a, I(FIRST), m[0]], [a, I(REST), a]]
+                if rng.random() < 0.5:
+                    ref = None
+            elif kind == "sharedtail":
+                out += [[a, I(FIRST), m[0]], [a, I(REST), c], [b, I(FIRST), m[1]], [b, I(REST), c],
+                        [c, I(FIRST), m[2]], [c, I(REST), I(NIL)], [subj(), pred(), b]]
+            elif kind == "norest":
+                out += [[a, I(FIRST), m[0]], [a, I(REST), b], [b, I(FIRST), m[1]]]
+            elif kind == "nofirst":
+                out += [[a, I(FIRST), m[0]], [a, I(REST), b], [b, I(REST), I(NIL)]]
+            elif kind == "twofirst":
+                out += [[a, I(FIRST), m[0]], [a, I(FIRST), m[1]], [a, I(REST), I(NIL)]]
+            elif kind == "tworest":
+                out += [[a, I(FIRST), m[0]], [a, I(REST), I(NIL)], [a, I(REST), b], [b, I(FIRST), m[1]], [b, I(REST), I(NIL)]]
+            elif kind == "restiri":
+                out += [[a, I(FIRST), m[0]], [a, I(REST), iri()]]
+            elif kind == "restlit":
+                out += [[a, I(FIRST), m[0]], [a, I(REST), gen_literal(rng)]]
+            elif kind == "extra":
+                out += [[a, I(FIRST), m[0]], [a, I(REST), b], [b, I(FIRST), m[1]], [b, I(REST), I(NIL)],
+                        [rng.choice([a, b]), pred(), obj(2) or iri()]]
+            elif kind == "typed":
+                out += [[a, I(FIRST), m[0]], [a, I(REST), I(NIL)], [a, I(TYPE), I(RDFNS + "List")]]
+            elif kind == "irihead":
+                h = iri()
+                out += [[h, I(FIRST), m[0]], [h, I(REST), b], [b, I(FIRST), m[1]], [b, I(REST), I(NIL)]]
+                ref = [subj(), pred(), h] if rng.random() < 0.5 else None
+            elif kind == "midref":
+                out += [[a, I(FIRST), m[0]], [a, I(REST), b], [b, I(FIRST), m[1]], [b, I(REST), I(NIL)],
+                        [subj(), pred(), b]]
+            elif kind == "nilprops":
+                out += [[I(NIL), pred(), obj(2) or iri()]]
+                ref = [subj(), pred(), I(NIL)]
+            if ref:
+                out.append(ref)
+    # de-duplicate, keep order
+    seen, res = set(), []
+    for t in out:
+        t = fixtype([x if x is not None else iri() for x in t])
+        k = repr(t)
+        if k not in seen:
+            seen.add(k)
+            res.append(t)
+    return res, tags
+
+
+# ---------------------------------------------------------------- input-side triggers of the known findings
+TURTLE_FAMILY = ("turtle", "longturtle", "n3")
+XML_FAMILY = ("xml", "pretty-xml")
+PY_SPACE = [c for c in map(chr, range(0x3001)) if c.isspace()]
+
+
+def literals_of(graph):
+    for t in graph:
+        for x in t:
+            if x[0] == "L":
+                yield x
+
+
+def iris_of(graph):
+    for t in graph:
+        for x in t:
+            if x[0] == "I":
+                yield x[1]
+            elif x[0] == "L" and x[3] is not None:
+                yield x[3]
+
+
+def xml_inexpressible(graph):
+    """the graph has a predicate that no XML QName can spell: RDF/XML cannot express it"""
+    return any(t[1][1] in XML_UNSPLITTABLE for t in graph)
+
+
+def _incoming(graph):
+    inc = {}
+    for t in graph:
+        if t[2][0] == "B":
+            inc.setdefault(t[2][1], []).append(t)
+    return inc
+
+
+def rest_cycle(graph):
+    nxt = {}
+    for t in graph:
+        if t[1][1] == REST and t[0][0] == "B" and t[2][0] == "B":
+            nxt.setdefault(t[0][1], []).append(t[2][1])
+    for start in nxt:
+        seen, todo = set(), [start]
+        while todo:
+            n = todo.pop()
+            for m in nxt.get(n, []):
+                if m == start:
+                    return True
+                if m not in seen:
+                    seen.add(m)
+                    todo.append(m)
+    return False
+
+
+def shared_list_cell(graph):
+    """a blank node with rdf:first that is reached by rdf:rest and is referenced at least twice"""
+    inc = _incoming(graph)
+    firsts = {t[0][1] for t in graph if t[0][0] == "B" and t[1][1] == FIRST}
+    for b, ts in inc.items():
+        if b in firsts and len(ts) >= 2 and any(t[1][1] == REST for t in ts):
+            return True
+    return False
+
+
+def bad_relative(graph, base):
+    """an IRI under the base whose remainder, written as a relative reference, resolves elsewhere"""
+    from urllib.parse import urljoin
+    for u in iris_of(graph):
+        if u.startswith(base):
+            rest = u.replace(base, "", 1)
+            if "#" in u.replace(base, "") or "/" in u.replace(base, ""):
+                continue
+            if urljoin(base, rest, allow_fragments=True) != u:
+                return True
+    return False
+
+
+def triggers(graph, fmt, base=None, bind=None):
+    """Finding ids whose *input-side* trigger holds (see known_findings.d/C03.json).  Ordered."""
+    out = []
+    lits = list(literals_of(graph))
+    if any(x[3] is not None and not is_canonical(x[1], x[3]) for x in lits):
+        out.append("F15c")
+    if fmt == "nt" and any(c in u for u in iris_of(graph) for c in PY_SPACE):
+        out.append("F15b")
+    if fmt in TURTLE_FAMILY:
+        for x in lits:
+            if x[3] == XSD + "double":
+                try:
+                    v = float(x[1])
+                except ValueError:
+                    continue
+                if v == v and v not in (float("inf"), float("-inf")) and float("%e" % v) != v:
+                    out.append("F15")
+                    break
+        if any(x[3] == XSD + "decimal" and is_canonical(x[1], x[3]) and not any(c in x[1] for c in ".eE") for x in lits):
+            out.append("F15d")
+        if rest_cycle(graph):
+            out.append("F15e")
+        if shared_list_cell(graph):
+            out.append("F15f")
+        if any(t[1][1] == REST and t[2][0] == "L" and not bool(to_term(t[2])) for t in graph):
+            out.append("F15h")
+    if fmt in TURTLE_FAMILY + XML_FAMILY and base is not None and bad_relative(graph, base):
+        out.append("F15g")
+    return out
